@@ -12,7 +12,7 @@ for b in (0, 1, 2):
 for v in (0, 1):
     A(E("q", "mvhd_v%d" % v, "MvhdBox", "any_mvhd(%d)" % v, "ref_mvhd", 108 + 12 * v, 26))
     A(E("q", "tkhd_v%d" % v, "TkhdBox", "any_tkhd(%d)" % v, "ref_tkhd", 92 + 12 * v, 3))
-    A(E("q", "mdhd_v%d" % v, "MdhdBox", "any_mdhd(%d)" % v, "ref_mdhd", 32 + 12 * v, 5))
+    A(E("q" if v == 0 else "t", "mdhd_v%d" % v, "MdhdBox", "any_mdhd(%d)" % v, "ref_mdhd", 32 + 12 * v, 5))
     A(E("q", "mehd_v%d" % v, "MehdBox", "any_mehd(%d)" % v, "ref_mehd", 16 + 4 * v, 3))
     A(E("q", "tfdt_v%d" % v, "TfdtBox", "any_tfdt(%d)" % v, "ref_tfdt", 16 + 4 * v, 3))
     for e in (0, 1, 2):
@@ -41,7 +41,7 @@ TFHD_BITS = (0x01, 0x02, 0x08, 0x10, 0x20)
 for m in range(32):
     opt = sum(b for i, b in enumerate(TFHD_BITS) if m >> i & 1)
     size = 16 + (8 if opt & 1 else 0) + 4 * bin(opt & 0x3a).count("1")
-    quick = m in (0, 31) or bin(m).count("1") == 1
+    quick = m in (0, 31, 1, 8)
     A(E("q" if quick else "t", "tfhd_opt%02x" % opt, "TfhdBox", "any_tfhd(0x%x)" % opt, "ref_tfhd", size, 3))
 # trun: all 64 flag combinations x N in {0,1,2}; quick: a covering subset
 TRUN_BITS = (0x001, 0x004, 0x100, 0x200, 0x400, 0x800)
@@ -50,11 +50,11 @@ for m in range(64):
     for n in (0, 1, 2):
         per = bin(opt & 0xf00).count("1")
         size = 16 + 4 * bin(opt & 0x5).count("1") + 4 * per * n
-        quick = (n == 2 and (m in (0, 63) or bin(m).count("1") == 1 or opt in (0x201, 0x301, 0xa05, 0xb01))) or (n == 0 and m == 63)
+        quick = (n == 2 and (m in (0, 63) or opt in (0x100, 0x200, 0x800, 0x201, 0x301, 0xa05))) or (n == 0 and m == 63)
         A(E("q" if quick else "t", "trun_opt%03x_n%d" % (opt, n), "TrunBox", "any_trun::<%d>(0x%x)" % (n, opt), "ref_trun", size, n + 3))
 for v in (0, 1):
     for (s, vv, m) in ((0, 0, 0), (1, 2, 3), (3, 0, 1)):
-        t = "q" if (s, vv, m) == (1, 2, 3) else "t"
+        t = "q" if (s, vv, m, v) == (1, 2, 3, 1) else "t"
         A(E(t, "emsg_v%d_s%d_v%d_m%d" % (v, s, vv, m), "EmsgBox", "any_emsg::<%d, %d, %d>(%d)" % (s, vv, m, v), "ref_emsg",
             12 + 4 + (12 if v == 0 else 16) + s + 1 + vv + 1 + m, max(s, vv, m) + 4))
 A(E("q", "tx3g", "Tx3gBox", "any_tx3g()", "ref_tx3g", 46, 14))
